@@ -246,7 +246,11 @@ func runKillCase(t fataler, vh, script string, nLeaves int, killTimeout time.Dur
 		"victim":    {Concurrency: 2, SourcePath: "gen", Tasks: victimTasks},
 		"bystander": {Concurrency: 1, SourcePath: "gen", Tasks: map[string]definition.TaskDef{"tree": {Script: []string{fmt.Sprintf("sh -c %s", shq(fmt.Sprintf("%s hang %s --ready %s --for 25s & %s hang %s --ready %s --for 25s", vh, m2, r2, vh, m2, r2)))}}}},
 	}}
-	w := newRealWorld(t, defs, killTimeout)
+	kt := killTimeout
+	if kt == 0 {
+		kt = -1 // (newRealWorld: explicitly no kill timeout - the whole group is killed at once)
+	}
+	w := newRealWorld(t, defs, kt)
 	defer func() {
 		w.close()
 		killMarker(m1)
@@ -338,7 +342,7 @@ const lingerAllowance = 250 * time.Millisecond
 
 // TestC20: canceling a job leaves no process of its tasks behind.
 func TestC20(t *testing.T) {
-	col := ev.Get("C20", "trees", "process trees from a grammar over 'vhelper hang' (leaf | sh -c with foreground/background children | pipeline | subshell | interpreter-level background command | a command that returns at once and leaves detached children behind, followed by another; leaves may ignore the interrupt and/or redirect their output away from the task's pipe; depth <= 4), run as a task of a real job next to a bystander job; kill timeout 450-700 ms (1.0-1.6 s in a fifth of the cases); cancel (or forced shutdown, then with two jobs of the pipeline running the same tree; or the failure of a second task of the job, so that fail-fast stops the tree) at a generated instant, also before the whole tree is up; oracle from /proc after the job is reported finished: no non-zombie process carrying the job's marker is alive (250 ms allowance), report - cancel <= kill timeout + 1.5 s, the bystander's processes are all alive; shapes of the two recorded findings are excluded by construction (counted) and exercised separately; non-trivial = depth >= 2 or a background/pipeline/ignore-int element; distinct by tree shape x cancel phase")
+	col := ev.Get("C20", "trees", "process trees from a grammar over 'vhelper hang' (leaf | sh -c with foreground/background children | pipeline | subshell | interpreter-level background command | a command that returns at once and leaves detached children behind, followed by another; leaves may ignore the interrupt and/or redirect their output away from the task's pipe; depth <= 4), run as a task of a real job next to a bystander job; kill timeout 450-700 ms (1.0-1.6 s in a fifth of the cases, none at all - the group is killed at once - in an eighth); cancel (or forced shutdown, then with two jobs of the pipeline running the same tree; or the failure of a second task of the job, so that fail-fast stops the tree) at a generated instant, also before the whole tree is up; oracle from /proc after the job is reported finished: no non-zombie process carrying the job's marker is alive (250 ms allowance), report - cancel <= kill timeout + 1.5 s, the bystander's processes are all alive; shapes of the two recorded findings are excluded by construction (counted) and exercised separately; non-trivial = depth >= 2 or a background/pipeline/ignore-int element; distinct by tree shape x cancel phase")
 	vh := helper(t)
 	// the two recorded findings, exercised deterministically
 	for _, kf := range knownFindings(vh) {
@@ -415,7 +419,9 @@ func TestC20(t *testing.T) {
 			}
 		}
 		killTimeout := time.Duration(rapid.IntRange(450, 700).Draw(rt, "killTimeoutMs")) * time.Millisecond
-		if rapid.IntRange(0, 4).Draw(rt, "longKillTimeout") == 0 {
+		if rapid.IntRange(0, 7).Draw(rt, "noKillTimeout") == 0 {
+			killTimeout = 0 // the runner is configured to kill at once
+		} else if rapid.IntRange(0, 4).Draw(rt, "longKillTimeout") == 0 {
 			// (a longer one now and then: whatever reports the job finished must wait for it, not for a
 			// period of its own)
 			killTimeout = time.Duration(rapid.IntRange(1000, 1600).Draw(rt, "longKillTimeoutMs")) * time.Millisecond
